@@ -139,3 +139,47 @@ def parse_version_reply(data):
     if len(data) >= 9 and data[:4] == b"VACK":
         return struct.unpack(">I", data[4:8])[0], data[8]
     return None
+
+
+# ----------------------------------------------------------------------------- server side of the wire (for client harnesses)
+DOWN = {"T": ("b32", b"t", b"h"), "S": ("b64", b"s", b"i"), "U": ("b64u", b"u", b"j"), "V": ("b128", b"v", b"k"), "R": (None, b"r", b"h")}
+
+
+def nameenc(payload, downenc, tld=b"xy"):
+    """one answer host name carrying a prefix of payload (like write_dns_nameenc); returns (name, consumed)"""
+    codec, _, letter = DOWN[downenc]
+    codec = codec or "b32"
+    k, _ = P.TABLES[codec]
+    space = 255 - 6
+    space -= space // 57
+    n = min(len(payload), space * k // 8)
+    d = P.dotify(letter + P.enc(codec, payload[:n]))
+    if not d.endswith(b"."):
+        d += b"."
+    return d + tld, n
+
+
+def server_answer(query_msg, payload, downenc="T", rcode=0, id_=None):
+    """the answer datagram an iodine server would send to `query_msg` carrying `payload`"""
+    p = P.parse(query_msg) if isinstance(query_msg, (bytes, bytearray)) else query_msg
+    name, qtype = p["qd"][0][0], p["qd"][0][1]
+    i = p["id"] if id_ is None else id_
+    flags = 0x8400 | (rcode & 15)
+    if qtype == P.T_TXT:
+        codec, letter, _ = DOWN[downenc]
+        body = letter + (P.enc(codec, payload) if codec else payload)
+        return P.answer(i, name, qtype, [P.txt_rdata(body)], flags=flags)
+    if qtype in (P.T_CNAME, P.T_A):
+        host, _ = nameenc(payload, downenc)
+        return P.answer(i, name, qtype, [P.wire_name(host)], atype=P.T_CNAME, flags=flags)
+    if qtype in (P.T_MX, P.T_SRV):
+        rds, off, k = [], 0, 1
+        while off < len(payload) or k == 1:
+            host, n = nameenc(payload[off:], downenc)
+            pre = struct.pack(">H", 10 * k) + (struct.pack(">HH", 10, 5060) if qtype == P.T_SRV else b"")
+            rds.append(pre + P.wire_name(host))
+            off += max(n, 1); k += 1
+            if n == 0:
+                break
+        return P.answer(i, name, qtype, rds, flags=flags)
+    return P.answer(i, name, qtype, [payload], flags=flags)
